@@ -1,7 +1,72 @@
-"""C18 simplest_from_float / simplest_from_f32 / simplest_from_f64 (agent unitsf).  See the end of this file for notes."""
+"""C18: RBig::simplest_from_float, RBig::simplest_from_f32 / simplest_from_f64 (agent unitsf).
+
+ratio_sf_ebounds (contracts/units/ratio_sf_ebounds.rs): float/src/round.rs `impl ErrorBounds for mode::{Zero, Away, Up, Down,
+  HalfAway, HalfEven}` -- own annotated copies (annot/rational/simplestf/eb_*.rs) of the six functions of units
+  float_error_bounds(+_halfeven), same contract eb_post (EXACTLY the reals that round to f) STRENGTHENED by eb_shape
+  (lib/sf_shape.rs): each returned bound has a ONE-digit significand 0 <= s < B, is finite, and carries the precision of f
+  (FBig::ZERO: precision 0).  Needed by the caller for `bound.with_precision(p + 1).unwrap()` and for the exactness of f -/+ bound.
+
+ratio_simplest_from_float: rational/src/third_party/dashu_float.rs `RBig::simplest_from_float<R: ErrorBounds, const B: Word>(f)`
+  + the real `Approximation::unwrap` (base/src/approx.rs; `total`: the panic on Inexact is unreachable).
+  requires B >= 2, sf_domain(f): f infinite, or zero, or eb_domain (EVEN base, limited precision p >= 1, normalized significand with
+    at most p digits, exponent arithmetic inside isize) + precision / exponents inside the resource limit 2^56 of FBig +/- (as
+    add_ranges of unit float_add).  ODD BASES ARE EXCLUDED (known finding, registry_d/findings.py: half an ulp is not
+    representable, simplest_from_float(0.1 base 3, 1 digit, HalfAway) = 1/2); unlimited precision (p == 0) is outside too.
+  ensures  infinite => None;  zero => Some(0/1);  otherwise Some(r) with sf_post(R::md(), B, sig, exp, p, r):
+    r canonical (wf_ratio), in_round_set(r) -- r ROUNDS TO f under mode R at precision p, by the DEFINITION of the modes
+    (round_def on the grid of r's own binade: rounds_on_grid of lib/ebounds_lemmas.rs; the code's interval is not part of the
+    statement) -- and for ALL fractions qn/qd (qd >= 1, canonical or not) that round to f: !simpler(q, r) (documented order:
+    denominator, |numerator|, positive before negative; the `simpler` RBig::is_simpler_than is proved against).
+  ErrorBounds is a trait with ONE contract stated through the ghost mode Self::md(); it is NOT trusted: six forwarding impls call
+  the six hoisted real functions (SIG from the copies proved in ratio_sf_ebounds), so Verus checks trait contract <= each impl.
+  Proof outline (lib/sf_lemmas.rs): the interval bounds are unique for the set they describe (lemma_eb_unique: they are the
+  values eb_table derives from the definition of the modes), hence f -/+ bound has a representation S * B^E with |S| <= B^(p+1)
+  (lemma_endpoint) => the trusted exactness clause of FBig -/+ applies => left/right are the exact end points; membership
+  in_round_set <=> flagged interval (lemma_member); selection lemma (lemma_pick: interior candidate of simplest_in, then the
+  inclusive end points).
+
+ratio_simplest_prim: rational/src/simplify.rs `RBig::simplest_from_f32`, `RBig::simplest_from_f64` with the macro
+  impl_simplest_from_float inlined from its own annotated arm (rule E3d `minline=`, variant tags [f32]/[f64]).
+  ensures  NaN / infinite (exponent field all ones) => None;  +-0.0 => Some(0/1);  otherwise Some(r) with
+    prim_post(fmt, fields(f), r): r canonical, prim_round_set(r), and no fraction in prim_round_set is simpler.
+    prim_round_set (lib/sf_prim_lemmas.rs) is IEEE round-to-nearest-even on the grid of the float's neighbours, from the
+    bit fields: f = m * 2^e (the pair `decode` returns), neighbour spacing 2^e, halved below f when f is the bottom of a normal
+    binade above the first (frac == 0, eb > 1), ties to the even significand -- rounds_on_grid(HalfEven, m, g, ..), b = 2.
+    The masks on to_bits() are tied to the fields (/, %) by `by (bit_vector)` lemmas (lemma_prim_bits32/64).
+ratio_sf_from_prim: rational/src/convert.rs macro impl_conversion_from_float `impl TryFrom<f32/f64> for Repr` (callee of the macro
+  above): NaN / infinities => Err(OutOfBounds); +-0.0 => 0/1; otherwise the UNREDUCED m * 2^max(e,0) / 2^max(-e,0) (prim_from_post).
+
+Kani group ratio_sf_pow2 (kani/harness/ratio_sf_pow2.rs, target rational/src/simplify.rs):
+  BOUNDED: simplest_from_f32 / _f64 on ONE CONCRETE float per harness (+-2^24, 2^25, 2^26, 2^24+2, 1.0, 0.5 / +-2^54, 2^55, 1.0)
+  against an independent i128 oracle (neighbouring bit patterns -> midpoints -> brute-force simplest fraction); catches the
+  seeded mask change natively replayable.  COMPLETE: vk_ratio_sf_pow2_model_f32 / _f64 (all bit patterns, loop-free): the IEEE
+  meaning of is_nan / is_infinite / == 0. / > 0. / != +-MIN_POSITIVE / unary minus / MANTISSA_DIGITS that ratio_simplest_prim
+  assumes (as far as CBMC's float model goes).
+
+TRUSTED beyond the libs of units float_error_bounds / float_conv / ratio_simplest (round_int_stubs, conv_*_stubs, ebounds_stubs):
+ contracts/lib/sf_stubs.rs  `&FBig - FBig`, `&FBig + FBig` (float/src/add.rs add_ref_val): from the PROPERTY STATEMENT C03 -- result
+   precision max(p_l, p_r); finite; normalized with exponent >= min of the operand exponents (or (0,0)); and IF the exact
+   difference / sum equals S * B^E with |S| <= B^P THEN the result is that number (ax_fbig_sub / ax_fbig_add).  Units
+   float_add(_ops) prove "correctly rounded at SOME unit" only ("representable in p digits => Exact" is listed there as not
+   proved); confirmed natively on a sweep (6 modes, bases 2/4/6/10/16, p <= 4, all significands, exponents -4..4).
+   req: finite operands + resource limits 2^56.
+ contracts/lib/sf_ratio_stubs.rs  RBig::ZERO == 0/1; Clone for RBig keeps the value; RBig::is_int (only for changed code);
+   `TryFrom<FBig<R,B>> for RBig` (macro forward_conversion_to_repr, third impl: `Repr::try_from(value.into_repr())` + reduce):
+   infinite => Err(OutOfBounds), else Ok(canonical fraction == sig * B^exp) for B >= 2, exponent > isize::MIN -- RESTATES what unit
+   ratio_from_float proves for `TryFrom<FBigRepr<B>> for RBig` (second impl of the same macro, same body) for the FBig wrapper.
+ contracts/lib/sf_spec.rs  `simpler`: verbatim copy of lib/ratio_types.rs (cannot be included next to round_int_stubs.rs).
+ contracts/lib/sf_prim_stubs.rs  f32/f64: to_bits == to_bits_spec; is_nan / is_infinite through the fields; MANTISSA_DIGITS 24/53;
+   MIN_POSITIVE bits 0x00800000 / 0x0010000000000000; __fneg_f32/64 (rule D28) flips the sign bit; ==, !=, > on floats are the
+   IEEE predicates (ieee_eq, ieee_pos; `>` only against a zero) -- all ten checked by the complete Kani model harnesses;
+   ShlAssign<usize> for IBig/UBig, Shl<usize> for IBig/&IBig: multiplication by 2^n.
+ contracts/lib/sf_from_prim_stubs.rs  UBig::ZERO/ONE; UBig::set_bit(n) adds 2^n to a value below 2^n.
+ `decode` (lib/conv_from_prim_stubs.rs): proved by Kani group base_bit.
+"""
 VERUS = {
     'ratio_sf_ebounds': {'file': 'ratio_sf_ebounds.rs', 'w32': False},
     'ratio_simplest_from_float': {'file': 'ratio_simplest_from_float.rs', 'w32': False},
+    'ratio_simplest_prim': {'file': 'ratio_simplest_prim.rs', 'w32': False},
+    'ratio_sf_from_prim': {'file': 'ratio_sf_from_prim.rs', 'w32': False},
 }
 _B = 'one concrete float per harness: '
 KANI = {
@@ -25,5 +90,12 @@ KANI = {
     },
 }
 PROP_UNITS = {
-    'C18': {'verus': ['ratio_sf_ebounds', 'ratio_simplest_from_float'], 'kani': ['ratio_sf_pow2'], 'undecided': []},
+    'C18': {'verus': ['ratio_sf_ebounds', 'ratio_simplest_from_float', 'ratio_simplest_prim', 'ratio_sf_from_prim'],
+            'kani': ['ratio_sf_pow2'],
+            'undecided': ['simplest_from_float: proved for EVEN bases and limited precision (odd bases: known finding; unlimited '
+                          'precision outside the contract); the exactness of FBig -/+ on representable results and the exponent '
+                          'lower bound of their result are ASSUMED from the C03 statement (unit float_add proves rounding at some '
+                          'unit only)',
+                          'simplest_from_f32/f64: the IEEE meaning of the core float comparisons / constants is assumed in Verus '
+                          '(checked by the complete Kani harnesses vk_ratio_sf_pow2_model_*)']},
 }
